@@ -1,8 +1,11 @@
 ---------------------------- MODULE RunsTrace ----------------------------
 (* C09, code -> spec.  The programs are the object graphs recorded from the real worked examples           *)
-(* (harness/drv_c09.py, one JSON object per line); cfg:  CONSTANT Progs <- TraceProgs.                      *)
+(* (harness/drv_c09.py, one JSON object per line, file named by the environment variable TRACE_FILE);       *)
+(* cfg:  TraceMode = TRUE, INIT Init, NEXT Next, INVARIANT Report.                                          *)
 (* The machine of Runs.tla executes every recorded program on every tuple of real members and every grid    *)
-(* start; NoRunBeatsBound (reported per run by Runs!Report) is C09 evaluated against the OBSERVED tau.      *)
-EXTENDS Runs, IOUtils
-TraceProgs == ndJsonDeserialize(IOEnv.TRACE_FILE)
+(* start; NoRunBeatsBound - reported per run by Report as a JSON line ["R", trace, member tuple, code, ...] *)
+(* - is C09 evaluated against the OBSERVED tau.  A trace's verdict is the aggregate of its run records:     *)
+(* the harness requires at least one completed feasible run per supported trace (totality).                 *)
+EXTENDS Runs
+TraceNoRunBeatsBound == NoRunBeatsBound
 =============================================================================
